@@ -42,6 +42,10 @@ pub fn run(thorough: bool) -> Vec<Part> {
         let limits = Limits { max_states: 6_000_000, max_secs: if thorough { 3000.0 } else { 120.0 }, ..Default::default() };
         let st = bfs(&cfg, &limits, workers());
         record(&mut part, "expect-alphabet", &st);
+        {
+            let tl = crate::connx::stateless_sequences(&cfg, if thorough { 5 } else { 4 }, workers());
+            crate::connx::record_stateless(&mut part, &cfg.label, &tl);
+        }
         for (v, _) in &st.violations {
             part.violations.push(v.clone());
         }
